@@ -1,6 +1,12 @@
 """C07 — best-feature safety net: real mokapot.brew against Model/BrewDecision.v (+ Model/Brew.v for the
-model scores); the direction clause (assign_confidence(descs=[False])) is exercised by the C03 runner."""
+model scores), and the direction clause through the real assign_confidence (Model/Confidence.v on the
+direction-adjusted scores): given score vectors with per-collection directions, the scores and directions
+handed back by brew (end to end), and assign_confidence's own best-feature choice (scores=None)."""
+import os
+import shutil
+import tempfile
 from fractions import Fraction
+from pathlib import Path
 
 from .. import lib, brewlib
 from ..lib import Toks, call_impl
@@ -8,195 +14,1023 @@ from . import c02, c03
 from .c01 import exact_ints
 
 PROP = "C07"
-RULE = ("real read_pin + brew on generated tables (1-2 files, label encodings 1/-1, 1/0, bool; text/Parquet) with "
-        "estimators that learn (a feature column), cannot learn (constant decision function) or learn badly (negated "
-        "feature), override on/off, higher-is-better and lower-is-better best features, train/test FDR 0.1-0.5; "
-        "compared: per fold model (best_feat, feat_pass, desc), the fall-back decision, the returned scores and descs. "
-        "Plus assign_confidence with descs=[False] on generated tables (result files vs the model on negated scores). "
-        "non-trivial = the fall-back is taken, or a model is untrained, or the best feature is lower-is-better")
+RULE = ("real read_pin + brew on generated tables (1-3 files, 2-5 folds, label encodings 1/-1, 1/0, bool mixed between "
+        "files; text/Parquet; spectrum keys of 1-4 columns; feature columns renamed / re-ordered / duplicated; feature "
+        "values with many ties or pairwise distinct, shifted below zero, quarter-valued floats; any subset of the features "
+        "lower-is-better; target-rich / target-poor tables; 25-600 rows) with estimators that learn (a feature column, fixed "
+        "or depending on the fitted rows), cannot learn (constant decision function) or learn badly (negated feature), with "
+        "decision_function or predict_proba only, override on/off, shuffle on/off, max_iter 1-3, Model(direction=...) "
+        "absent / given, train/test FDR 0.05-0.5, max_workers 1-4, subset_max_train absent / binding, ensemble on/off, "
+        "prediction / training-read chunk sizes, psms as list or single data set, rng as int or Generator. "
+        "compared with the extracted model: per fold model (best_feat, feat_pass, desc), is_trained (predicted for the "
+        "row-independent estimators), the fall-back decision, the returned scores and descs; then (a) brew is called AGAIN "
+        "on the re-read files with the list of the fold models it returned (override flags kept, all set, or mixed) and "
+        "must make the decision the model makes for those flags; (b) the returned (psms, scores, descs) go unchanged into "
+        "the real assign_confidence and the result files are compared with Model/Confidence.v on the direction-adjusted "
+        "scores (when those are pairwise distinct). "
+        "Plus assign_confidence on generated tables with given score vectors: descs all False or MIXED per collection, "
+        "scores as float / int / float32 array or (n,1) array (a plain list is rejected by a type check), with and without tied scores; and assign_confidence with "
+        "scores=None (its own best feature per collection, expected to be ranked in that feature's direction). "
+        "non-trivial (from the OUTCOME of the run, see tags out:*) = the fall-back is taken, or a model is untrained, or a "
+        "returned direction is lower-is-better; for assign_confidence cases: a lower-is-better collection in a table where "
+        "some spectrum has >= 2 PSMs and some peptide >= 2 spectra. "
+        "Checked with the property oracle only (the Coq model predicts the per-fold best features but not the learned scores): "
+        "brew with a real learner, mokapot.PercolatorModel (tags brew-svm): the answer accepts at least as many genuine targets "
+        "at test_fdr as the best feature did in training, or it is the best feature of the first fold with the largest count "
+        "with its direction.  Not generated: a single PRE-TRAINED Model that brew re-trains (feat_pass is then the count of "
+        "that model, not of a feature)")
 ASSUMPTIONS = [
-    "whether Model.fit succeeds for a fold (is_trained) is taken from the run (C12's domain); everything else is predicted",
-    "model scores are the C02 model's calibrated rationals scaled to integers (order and ties exact)",
+    "whether Model.fit succeeds for a fold (is_trained) is predicted for estimators whose column does not depend on the "
+    "fitted rows (count of the estimator's scores on the observed training rows at train_fdr against feat_pass); for the "
+    "row-dependent estimator it is taken from the run (C12's domain)",
+    "model scores are the C02 model's calibrated rationals scaled to integers (order and ties exact); ensemble scores are the "
+    "exact mean of the fold models' integer-valued raw scores",
+    "with subset_max_train the training rows of a fold are the rows the recording scaler saw (checked to be a sub-sample of "
+    "the fold's complement of the planned size; the draw itself is C02's RNG oracle)",
+    "feature names that collide with brew's internal 'fold' column and files whose feature columns are ordered differently "
+    "are rejected by brew / assign_confidence with an explicit error (KeyError / AssertionError) and are not generated",
 ]
 TRUSTED_EXTRA = c02.TRUSTED_EXTRA
+
+KEY_DIRECTION = "brew:direction-best-feat-is-values"
+KEY_AUTO = "assign_confidence:scores-none-ignores-direction"
+
+NAME_POOLS = [["feat0", "feat1", "feat2"], ["feat0", "feat1", "feat2"], ["score", "lnExpect", "absdM"], ["B", "a", "C"]]
+
+
+# ----------------------------------------------------------------------------- generation
+def _take_rows(f, keep, file_idx):
+    data = {k: [v[i] for i in keep] for k, v in f["data"].items()}
+    n = len(keep)
+    data["SpecId"] = ["f%d_psm%d" % (file_idx, i) for i in range(n)]
+    data["rid"] = [file_idx * 100000 + i for i in range(n)]
+    return {"columns": list(f["columns"]), "data": data, "targets": [f["targets"][i] for i in keep]}
+
+
+def _mk_files(rng, nfiles, nrange, opt):
+    """opt: nkey, mult, distinct, tfrac, flips (set of 0..2), dup, shift, names (3 names), order (perm of 0..2)"""
+    files = []
+    for j in range(nfiles):
+        n = rng.randint(*nrange)
+        f = brewlib.gen_file(rng, n, opt["nkey"], file_idx=j, mult=opt["mult"], label_enc=rng.choice(["pm1", "pm1", "01", "bool"]),
+                             quality=rng.choice(opt.get("quality", [0.3, 0.6, 0.8, 0.9, 0.9, 0.9])), distinct=opt["distinct"])
+        if opt["tfrac"] != "mid":
+            drop = (lambda t: not t) if opt["tfrac"] == "rich" else (lambda t: t)
+            keep = [i for i in range(n) if not (drop(f["targets"][i]) and rng.random() < 0.6)]
+            f = _take_rows(f, keep, j)
+            n = len(keep)
+        for a in opt["flips"]:
+            col = f["data"]["feat%d" % a]
+            top = max(col) + min(col)
+            f["data"]["feat%d" % a] = [top - v for v in col]
+        for a in opt.get("weaken", []):
+            col = f["data"]["feat%d" % a]
+            pool = sorted(col)
+            f["data"]["feat%d" % a] = [v if rng.random() < 0.45 else pool[rng.randrange(len(pool))] for v in col]
+            if opt["distinct"]:     # keep the values pairwise distinct: re-rank
+                order = sorted(range(len(col)), key=lambda i: (f["data"]["feat%d" % a][i], rng.random()))
+                for rank, i in enumerate(order):
+                    f["data"]["feat%d" % a][i] = pool[rank]
+        if opt["dup"]:
+            f["data"]["feat2"] = list(f["data"]["feat0"])
+        if opt["shift"]:
+            for a in range(3):
+                f["data"]["feat%d" % a] = [v - opt["shift"] for v in f["data"]["feat%d" % a]]
+        # rename and re-order the feature columns (rid stays the first feature: the recording scaler reads the row id there)
+        ren = {"feat%d" % a: opt["names"][a] for a in range(3)}
+        data, cols = {}, []
+        for cname in f["columns"]:
+            if cname in ren:
+                continue
+            data[cname] = f["data"][cname]
+            cols.append(cname)
+            if cname == "rid":
+                for a in opt["order"]:
+                    data[opt["names"][a]] = f["data"]["feat%d" % a]
+                    cols.append(opt["names"][a])
+        files.append({"columns": cols, "data": data, "targets": f["targets"]})
+    return files
+
+
+def _mixed_flags(rng, k):
+    flags = [rng.random() < 0.5 for _ in range(k)]
+    i = rng.randrange(k)
+    flags[i] = True
+    flags[(i + 1 + rng.randrange(k - 1)) % k] = False
+    return flags
+
+
+def _brew_case(rng, thorough, **force):
+    nfiles = force.get("nfiles", rng.choice([1, 1, 2, 2, 3]))
+    distinct = force.get("distinct", rng.random() < 0.4)
+    names = rng.choice(NAME_POOLS)
+    order = rng.choice([[0, 1, 2], [0, 1, 2], [2, 0, 1], [1, 2, 0], [2, 1, 0]])
+    flips = force.get("flips", rng.choice([[], [], [], [0], [0], [1], [0, 2], [0, 1, 2], [order[0]]]))
+    opt = {"nkey": rng.choice([1, 2, 2, 2, 4]), "mult": (1, rng.choice([1, 2, 3])), "distinct": distinct,
+           "tfrac": force.get("tfrac", rng.choice(["mid", "mid", "mid", "rich", "poor"])), "flips": sorted(set(flips)),
+           "dup": rng.random() < 0.12, "shift": rng.choice([0, 0, 0, 50, 1000]), "names": names, "order": order}
+    wk = force.get("weaken", rng.random() < 0.6)
+    if wk == "first":
+        opt["weaken"] = [order[0]]                                  # the estimator's column (learn=False) is the weakest feature
+    elif wk:
+        opt["weaken"] = [a for a in range(3) if a != order[0]]      # the estimator's column (learn=False) is the strongest feature
+    if "quality" in force:
+        opt["quality"] = force["quality"]
+    size = rng.random()
+    folds = force.get("folds", rng.choice([2, 3, 3, 3, 4, 5]))
+    if "nrange" in force:
+        nrange = force["nrange"]
+    elif size < 0.07:
+        nrange = (25, 45)
+    elif size < 0.9 or not thorough:
+        nrange = (max(60, 35 * folds), max(220 if thorough else 150, 55 * folds))     # a fold should accept some target
+    else:
+        nrange = (300, 600)
+    files = _mk_files(rng, nfiles, nrange, opt)
+    feats = ["rid"] + [names[a] for a in order]
+    fdr = force.get("test_fdr", rng.choice(["0.1", "0.25", "0.5", "0.25", "0.5", "0.25", "0.5", "0.25", "0.5", "0.05"]))
+    train_fdr = force.get("train_fdr", rng.choice([fdr if fdr in ("0.25", "0.5") else "0.5", "0.25", "0.25", "0.5", "0.5", "0.5", "0.1"]))
+    # the estimator ranks by +column ("col") or -column ("neg"): a good learner follows the direction of its column
+    learner = force.get("learner", rng.choice(["good", "good", "good", "good", "good", "const", "bad"]))
+    first_low = order[0] in opt["flips"]
+    kind = force.get("est_kind", "const" if learner == "const" else ("neg" if (learner == "good") == first_low else "col"))
+    learn = force.get("learn", rng.random() < 0.25)
+    ntot = sum(len(f["targets"]) for f in files)
+    nmax = max(len(f["targets"]) for f in files)
+    nmin = min(len(f["targets"]) for f in files)
+    cap = rng.choice([None, None, None, 0.4, 0.7])      # binding for every file, and never more than a file's complement holds
+    if "cap" in force:
+        cap = force["cap"]
+    if cap:
+        cap = max(6 * nfiles, int(nfiles * nmin * (folds - 1) / folds * cap))
+    chunks = {}
+    if rng.random() < 0.25:
+        chunks["predict"] = max(1, rng.choice([3, 7, nmax // 2, nmax - 1, nmax + 1]))
+    if rng.random() < 0.15:
+        chunks["trainread"] = max(1, rng.choice([5, nmax - 1, nmax + 1]))
+    fmt = rng.choice(["tsv", "parquet"])
+    override = force.get("override", rng.random() < 0.3)
+    direction = force.get("direction", feats[rng.randint(1, 3)] if rng.random() < 0.12 else None)
+    if direction:
+        learn, cap = False, None      # so that the model can say what brew should return even when brew raises (see finding)
+    rerun = force.get("rerun", rng.choice(["keep", "mixed", "mixed", "all", "none", None]))
+    c = {"fn": "brew", "files": files, "feats": feats, "fscale": rng.choice([1, 1, 1, 2, 4]), "folds": folds,
+         "seed": rng.randint(0, 10 ** 6), "test_fdr": fdr, "train_fdr": float(train_fdr), "workers": rng.choice([1, 1, 2, 4]),
+         "subset_max_train": cap, "chunks": chunks, "fmt": fmt, "row_group": rng.choice([None, 7, 64]) if fmt == "parquet" else None,
+         "est_mode": rng.choice(["decision", "decision", "decision", "proba"]), "est_kind": kind, "learn": learn,
+         "override": override, "max_iter": rng.choice([1, 1, 2, 3]), "shuffle": rng.random() < 0.8, "direction": direction,
+         "ensemble": force.get("ensemble", rng.random() < 0.2), "single_arg": nfiles == 1 and rng.random() < 0.3,
+         "rng_kind": rng.choice(["int", "int", "gen"]), "rerun": rerun,
+         "rerun_override": _mixed_flags(rng, folds) if rerun == "mixed" else None,
+         "confidence": {"dedup": rng.random() < 0.7, "rollup": rng.random() < 0.7, "prefixes": rng.random() < 0.5,
+                        "chunk": rng.choice([None, None, 7, nmax - 1, nmax + 1]), "workers": rng.choice([1, 1, 3])},
+         "tags": ["brew", "kind=" + kind + ("-rows" if learn and kind != "const" else ""), "learner=" + learner, "low=" + "".join(map(str, opt["flips"])) if opt["flips"] else "high",
+                  f"files={nfiles}", f"folds={folds}", "fdr=" + fdr, "train_fdr=" + train_fdr,
+                  "vals=" + ("distinct" if distinct else "ties") + ("-neg" if opt["shift"] else ""),
+                  "tfrac=" + opt["tfrac"], "names=" + names[0], "order=" + "".join(map(str, order)), "keycols=%d" % opt["nkey"]]}
+    for flag, tag in ((opt["dup"], "dup-feature"), (cap, "cap"), (c["ensemble"], "ensemble"), (override, "override"),
+                      (direction, "direction"), (c["single_arg"], "single-arg"), (c["fscale"] != 1, "float-features"),
+                      (c["workers"] > 1, "workers>1"), (chunks, "chunks"), (c["est_mode"] == "proba", "proba"),
+                      (not c["shuffle"], "noshuffle"), (opt.get("weaken") and wk != "first", "first-feature-strongest"), (wk == "first", "first-feature-weakest"), (rerun, "rerun=%s" % rerun), (c["rng_kind"] == "gen", "rng=generator")):
+        if flag:
+            c["tags"].append(tag)
+    return c
 
 
 def gen(ctx):
     cases = []
     rng = ctx.sub("c07")
-    for k in range(160 if ctx.thorough else 40):
-        nfiles = rng.choice([1, 1, 2])
-        low = rng.random() < 0.35
-        files = []
-        for j in range(nfiles):
-            n = rng.randint(40, 200 if ctx.thorough else 120)
-            f = brewlib.gen_file(rng, n, 2, file_idx=j, mult=(1, 3), label_enc=rng.choice(["pm1", "pm1", "01", "bool"]),
-                                 quality=rng.choice([0.3, 0.7, 0.9]))
-            if low:
-                f["data"]["feat0"] = [100 - v for v in f["data"]["feat0"]]
-            files.append(f)
-        fdr = rng.choice(["0.1", "0.25", "0.5"])
-        train_fdr = rng.choice([fdr, fdr, "0.1", "0.25", "0.5"])
-        kind = rng.choice(["col", "col", "const", "neg"])
-        cases.append({"fn": "brew", "files": files, "folds": rng.randint(2, 3), "seed": rng.randint(0, 10 ** 6),
-                      "test_fdr": fdr, "train_fdr": float(train_fdr), "workers": 1, "subset_max_train": None, "chunks": {},
-                      "fmt": rng.choice(["tsv", "parquet"]), "row_group": None, "est_mode": "decision",
-                      "est_kind": kind, "learn": False, "override": rng.random() < 0.3, "max_iter": rng.choice([1, 2]),
-                      "tags": ["brew", "kind=" + kind, "low" if low else "high", f"files={nfiles}", "fdr=" + fdr, "train_fdr=" + train_fdr]})
+    for k in range(620 if ctx.thorough else 130):
+        cases.append(_brew_case(rng, ctx.thorough))
     # training FDR and evaluation FDR differ: the comparison must be made at the evaluation FDR
+    rng = ctx.sub("c07-fdr-mismatch")
     for (tr, te) in (("0.5", "0.1"), ("0.5", "0.25"), ("0.25", "0.1"), ("0.1", "0.5")):
-        for rep in range(3 if ctx.thorough else 2):
-            n = rng.randint(80, 160)
-            f = brewlib.gen_file(rng, n, 2, file_idx=0, mult=(1, 2), label_enc="pm1", quality=rng.choice([0.5, 0.7]))
-            for other in ("feat1", "feat2"):      # feat0 is the best feature in every fold, so training succeeds
-                f["data"][other] = [rng.randint(0, 60) for _ in range(n)]
-            cases.append({"fn": "brew", "files": [f], "folds": 3, "seed": rng.randint(0, 10 ** 6),
-                          "test_fdr": te, "train_fdr": float(tr), "workers": 1, "subset_max_train": None, "chunks": {},
-                          "fmt": "tsv", "row_group": None, "est_mode": "decision", "est_kind": "col", "learn": False,
-                          "override": False, "max_iter": 1,
-                          "tags": ["brew", "kind=col", "high", "files=1", "fdr=" + te, "train_fdr=" + tr, "fdr-mismatch"]})
-    # direction clause through assign_confidence
-    for c in c03.gen(ctx)[: (60 if ctx.thorough else 16)]:
-        if c["ties"]:
-            continue
-        c = dict(c, fn="conf", descs=False)
-        c["tags"] = ["conf-desc-false"] + c["tags"][1:]
+        for rep in range(6 if ctx.thorough else 3):
+            strict = te == "0.1"      # every fold has to accept some target at the evaluation FDR, or brew stops (C11)
+            c = _brew_case(rng, False, nfiles=1, flips=[], tfrac="mid", nrange=(300, 450) if strict else (150, 260),
+                           quality=[0.8, 0.9] if strict else [0.6, 0.8], folds=rng.choice([2, 3]),
+                           test_fdr=te, train_fdr=tr, learner="good", learn=False, override=False, direction=None, ensemble=False,
+                           weaken=False, cap=None, rerun=["keep", "mixed", "mixed"][rep % 3])
+            f = c["files"][0]
+            n = len(f["targets"])
+            for other in c["feats"][2:]:      # the estimator's feature is the best feature in every fold, so training succeeds
+                f["data"][other] = [min(f["data"][c["feats"][1]]) + rng.randint(0, 60) // 3 for _ in range(n)]
+            c["tags"].append("fdr-mismatch")
+            cases.append(c)
+    # a trained model that is worse at the evaluation FDR, on lower-is-better features, all encodings: the fall-back with
+    # trained models and direction False
+    rng = ctx.sub("c07-low-fallback")
+    for rep in range(30 if ctx.thorough else 10):
+        if rep % 5 < 2:
+            c = _brew_case(rng, False, flips=[0, 1, 2], learner=rng.choice(["const", "bad"]), override=False, direction=None,
+                           distinct=rep % 2 == 0)
+        else:       # trains (lenient training FDR), is worse at the strict evaluation FDR
+            c = _brew_case(rng, False, flips=[0, 1, 2], learner="good", learn=False, weaken=True, override=False, direction=None,
+                           distinct=rep % 2 == 0, train_fdr="0.5", test_fdr=["0.25", "0.1", "0.25"][rep % 3], tfrac="mid",
+                           nrange=[(150, 260), (300, 450), (150, 260)][rep % 3], quality=[[0.6, 0.8], [0.8, 0.9], [0.6, 0.8]][rep % 3],
+                           folds=rng.choice([2, 3]), cap=None, rerun=["keep", "mixed", "mixed", "all"][rep % 4], ensemble=False)
+        c["tags"].append("low-fallback")
         cases.append(c)
+    # a weak learner the user forces (override=True): brew keeps its scores; the SAME fold models handed to brew as a list of
+    # trained models with the flag cleared on all / some of them must bring the fall-back back
+    rng = ctx.sub("c07-forced-then-not")
+    for rep in range(36 if ctx.thorough else 12):
+        c = _brew_case(rng, False, learner="good", learn=False, weaken="first", override=True, direction=None, tfrac="mid",
+                       nrange=(120, 240), quality=[0.8, 0.9], folds=rng.choice([2, 3, 3, 4]), cap=None,
+                       train_fdr="0.5", test_fdr=rng.choice(["0.5", "0.25"]), rerun=["none", "mixed", "mixed"][rep % 3],
+                       ensemble=rep % 4 == 1)
+        c["tags"].append("forced-then-not")
+        cases.append(c)
+    # a real learner (mokapot.PercolatorModel: linear SVM with grid search): its scores are not predicted, the per-fold best
+    # features are; the answer of brew is judged by the property oracle alone
+    rng = ctx.sub("c07-svm")
+    for rep in range(40 if ctx.thorough else 10):
+        c = _brew_case(rng, False, learner="good", learn=False, override=False, direction=None, ensemble=rep % 4 == 3, cap=None,
+                       nfiles=rng.choice([1, 1, 2]), nrange=(250, 500), tfrac=rng.choice(["mid", "mid", "rich"]), rerun=None,
+                       quality=rng.choice([[0.5], [0.7], [0.9]]), train_fdr=rng.choice(["0.25", "0.5"]),
+                       test_fdr=rng.choice(["0.1", "0.25", "0.5", "0.5"]), folds=rng.choice([2, 3, 3, 4]))
+        c["fn"] = "brew_svm"
+        c["tags"] = ["brew-svm"] + [t for t in c["tags"][1:] if not t.startswith(("kind=", "learner=", "rerun", "proba", "noshuffle"))]
+        cases.append(c)
+    # direction clause through assign_confidence with given scores
+    crng = ctx.sub("c07-conf")
+    conf = [c for c in c03.gen(ctx) if c["fn"] == "conf"]
+    multi = [c for c in conf if len(c["files"]) > 1]
+    single = [c for c in conf if len(c["files"]) == 1]
+    pick = single[: (50 if ctx.thorough else 10)] + multi[: (90 if ctx.thorough else 22)]
+    for c in pick:
+        ncoll = len(c["files"])
+        if ncoll == 1 or crng.random() < 0.3:
+            descs = [False] * ncoll
+        else:
+            descs = [crng.random() < 0.5 for _ in range(ncoll)]
+            descs[crng.randrange(ncoll)] = False
+            if all(not d for d in descs):
+                descs[crng.randrange(ncoll)] = True
+        c = dict(c, fn="conf", descs=descs, container=crng.choice(["f64", "f64", "i64", "f32", "col"]))
+        c["tags"] = ["conf-given-scores", "descs=" + ("all-false" if not any(descs) else "mixed"), "scores-as=" + c["container"]] + c["tags"][1:]
+        cases.append(c)
+    # assign_confidence chooses the best feature itself (scores=None)
+    arng = ctx.sub("c07-auto")
+    for k in range(60 if ctx.thorough else 14):
+        ncoll = arng.choice([1, 1, 2, 3])
+        flipsets = [arng.choice([[], [], [0, 1, 2], [0], [0, 1, 2]]) for _ in range(ncoll)]
+        nkey = arng.choice([2, 2, 4])
+        files = []
+        for j in range(ncoll):
+            opt = {"nkey": nkey, "mult": (1, arng.choice([1, 3])), "distinct": True, "tfrac": "mid",
+                   "flips": flipsets[j], "dup": False, "shift": arng.choice([0, 0, 700]), "names": NAME_POOLS[0], "order": [0, 1, 2]}
+            f = _mk_files(arng, 1, (30, 150 if ctx.thorough else 90), opt)[0]
+            f = _take_rows(f, list(range(len(f["targets"]))), j)
+            files.append(f)
+        cases.append({"fn": "conf_auto", "files": files, "feats": ["rid", "feat0", "feat1", "feat2"], "dedup": arng.random() < 0.6,
+                      "rollup": arng.random() < 0.7, "decoys": True, "prefixes": arng.random() < 0.5, "chunks": {},
+                      "fmt": arng.choice(["tsv", "parquet"]), "workers": 1, "levels": [], "ties": False,
+                      "eval_fdr": arng.choice(["0.25", "0.5"]),
+                      "tags": ["conf-scores-none", f"coll={ncoll}"]})
     return cases
 
 
-FEATS = ["rid", "feat0", "feat1", "feat2"]
+# ----------------------------------------------------------------------------- the real code
+def _write(f, d, name, c):
+    fs = c.get("fscale", 1)
+    if fs != 1:
+        data = dict(f["data"])
+        for nm in c["feats"][1:]:
+            data[nm] = [v / fs for v in data[nm]]
+        f = dict(f, data=data)
+    return brewlib.write_file(f, d, name, c.get("fmt", "tsv"), c.get("row_group"))
+
+
+def _fr(arr):
+    import numpy as np
+    return [Fraction(float(v)) if np.isfinite(v) else None for v in np.asarray(arr, dtype=float).ravel()]
+
+
+def _conf_files(out):
+    files, leftovers = {}, []
+    for fn in sorted(os.listdir(out)):
+        parts = fn.split(".")
+        if "targets" in parts or "decoys" in parts:
+            files[fn] = c03._parse(Path(out) / fn, {"levels": []})
+        else:
+            leftovers.append(fn)
+    return {"files": files, "leftovers": leftovers}
+
+
+def _run_brew(c):
+    """read_pin + brew (+ brew again with the returned models, + assign_confidence on what brew returned)"""
+    import numpy as np
+    import mokapot
+    import mokapot.confidence as conf
+    from mokapot.model import Model
+    RecScaler, Transparent = brewlib.make_classes()
+    d = tempfile.mkdtemp(prefix="c07_", dir=os.environ.get("VERIF_TMP", "/tmp"))
+    try:
+        paths = [_write(f, d, "file%d" % i, c) for i, f in enumerate(c["files"])]
+        with brewlib.Chunking(**c.get("chunks", {})):
+            dss = mokapot.read_pin(paths, max_workers=1)
+            keys = [brewlib.spectrum_keys(ds) for ds in dss]
+            features = [list(ds.feature_columns) for ds in dss]
+            brewlib.reset_log()
+            est = Transparent(mode=c.get("est_mode", "decision"), learn=c.get("learn", False), kind=c.get("est_kind", "col"))
+            model = Model(est, scaler=RecScaler(), train_fdr=c["train_fdr"], max_iter=c.get("max_iter", 1),
+                          direction=c.get("direction"), override=c.get("override", False), shuffle=c.get("shuffle", True),
+                          rng=c["seed"])
+
+            def call(psms, mdl):
+                rng = np.random.default_rng(c["seed"]) if c.get("rng_kind") == "gen" else c["seed"]
+                return mokapot.brew(psms, mdl, test_fdr=float(c["test_fdr"]), folds=c["folds"], max_workers=c.get("workers", 1),
+                                    rng=rng, subset_max_train=c.get("subset_max_train"), ensemble=bool(c.get("ensemble")))
+            try:
+                psms_out, models, scores, descs = call(dss[0] if c.get("single_arg") else dss, model)
+            except BaseException as e:   # noqa
+                if isinstance(e, (KeyboardInterrupt, SystemExit, MemoryError)):
+                    raise
+                return {"keys": keys, "features": features, "error": lib.err_kind(e), "message": str(e)[:200],
+                        "est_fits": [(sorted(x[0]), x[2]) for x in brewlib.LOG["est_fit"] if len(x) > 2]}
+            fit_by_token = dict(brewlib.LOG["fit"])
+            obs = {
+                "keys": keys, "features": features, "error": None,
+                "model_folds": [m.fold for m in models],
+                "trained": [bool(m.is_trained) for m in models],
+                "cols": [getattr(m.estimator, "col_", None) for m in models],
+                "train_ids": [sorted(fit_by_token.get(getattr(m.scaler, "token_", None), [])) for m in models],
+                "scores": [_fr(s) for s in scores],
+                "shapes": [list(np.asarray(s).shape) for s in scores],
+                "descs": [bool(x) for x in descs],
+                "descs_types": sorted(set(type(x).__name__ for x in descs)),
+                "n_returned": [len(psms_out), len(scores), len(descs)],
+                "feat_pass": [int(m.feat_pass) if m.feat_pass is not None else None for m in models],
+                "best_feat": [m.best_feat if isinstance(m.best_feat, str) else (None if m.best_feat is None else "<%s>" % type(m.best_feat).__name__)
+                              for m in models],
+                "model_desc": [None if m.desc is None else bool(m.desc) for m in models],
+                "override": [bool(m.override) for m in models],
+                "seen": None, "rerun": None, "conf": None,
+            }
+            # (b) what brew returned goes unchanged into assign_confidence
+            cf = c.get("confidence")
+            if cf and all(np.all(np.isfinite(np.asarray(s, dtype=float))) for s in scores):
+                out = Path(d) / "out"
+                out.mkdir()
+                oldp = conf.peps_from_scores
+                conf.peps_from_scores = c03._const_peps
+                try:
+                    prefixes = ["coll%d" % i for i in range(len(paths))] if cf["prefixes"] else [None] * len(paths)
+                    with brewlib.Chunking(confidence=cf.get("chunk")):
+                        mokapot.assign_confidence(psms_out, max_workers=cf.get("workers", 1), scores=scores, descs=descs,
+                                                  eval_fdr=0.5, dest_dir=out, prefixes=prefixes, decoys=True,
+                                                  deduplication=cf["dedup"], do_rollup=cf["rollup"])
+                    obs["conf"] = _conf_files(out)
+                except BaseException as e:   # noqa
+                    if isinstance(e, (KeyboardInterrupt, SystemExit, MemoryError)):
+                        raise
+                    obs["conf"] = {"error": lib.err_kind(e) + ": " + str(e)[:200]}
+                finally:
+                    conf.peps_from_scores = oldp
+            # (a) brew again, on the re-read files, with the fold models as a list of trained models
+            if c.get("rerun") and all(obs["trained"]):
+                dss2 = mokapot.read_pin(paths, max_workers=1)
+                ms2 = list(models)
+                flags = _rerun_flags(c, obs["override"])
+                for m, o in zip(ms2, flags):
+                    m.override = o
+                try:
+                    _, models2, scores2, descs2 = call(dss2, ms2)
+                    obs["rerun"] = {"scores": [_fr(s) for s in scores2], "descs": [bool(x) for x in descs2],
+                                    "n_models": len(models2)}
+                except BaseException as e:   # noqa
+                    if isinstance(e, (KeyboardInterrupt, SystemExit, MemoryError)):
+                        raise
+                    obs["rerun"] = {"error": lib.err_kind(e) + ": " + str(e)[:200]}
+        return obs
+    finally:
+        shutil.rmtree(d, ignore_errors=True)
+
+
+def _run_svm(c):
+    import numpy as np
+    import mokapot
+    d = tempfile.mkdtemp(prefix="c07s_", dir=os.environ.get("VERIF_TMP", "/tmp"))
+    try:
+        paths = [_write(f, d, "file%d" % i, c) for i, f in enumerate(c["files"])]
+        with brewlib.Chunking(**c.get("chunks", {})):
+            dss = mokapot.read_pin(paths, max_workers=1)
+            keys = [brewlib.spectrum_keys(ds) for ds in dss]
+            model = mokapot.PercolatorModel(train_fdr=c["train_fdr"], max_iter=3, override=False, rng=c["seed"])
+            try:
+                _, models, scores, descs = mokapot.brew(dss[0] if c.get("single_arg") else dss, model, test_fdr=float(c["test_fdr"]),
+                                                        folds=c["folds"], max_workers=c.get("workers", 1), rng=c["seed"],
+                                                        ensemble=bool(c.get("ensemble")))
+            except BaseException as e:   # noqa
+                if isinstance(e, (KeyboardInterrupt, SystemExit, MemoryError)):
+                    raise
+                return {"keys": keys, "error": lib.err_kind(e), "message": str(e)[:200]}
+        return {"keys": keys, "error": None, "trained": [bool(m.is_trained) for m in models],
+                "scores": [_fr(s) for s in scores], "descs": [bool(x) for x in descs],
+                "best": [[m.best_feat if isinstance(m.best_feat, str) else "<%s>" % type(m.best_feat).__name__,
+                          int(m.feat_pass), bool(m.desc)] for m in models]}
+    finally:
+        shutil.rmtree(d, ignore_errors=True)
+
+
+def _svm_case(c):
+    got = call_impl(_run_svm, c)
+    if got[0] == "err":
+        return ("unknown", ""), got
+    obs = got[1]
+    ms = c02._model_side(dict(c, subset_max_train=None), obs)
+    if ms[0] == "err":
+        return ms, (("err", obs["error"]) if obs.get("error") else ("ok", {}))
+    m = ms[1]
+    if obs.get("error") and any(len(fold) == 0 for per_file in m["folds"] for fold in per_file):
+        return ("err", "EmptyFold"), ("err", "EmptyFold")
+    rows_per_fold = [[(j, r) for j in range(len(c["files"])) for r in m["complements_per_file"][f][j]] for f in range(c["folds"])]
+    bests, _ = _best_features(c, rows_per_fold)
+    expected = []
+    for rows, b in zip(rows_per_fold, bests):
+        tg = [c["files"][j]["targets"][r] for j, r in rows]
+        if not any(tg) or all(tg):
+            expected.append("ValueError:one-class")
+        elif b is None:
+            expected.append("RuntimeError:no-feature-accepts")
+    if obs.get("error"):
+        _tag(c, "out:error")
+        kind = _err_class(obs)
+        if kind in expected or (not expected and kind == "RuntimeError:calibration"):
+            return ("err", kind), ("err", kind)      # the learned scores are unknown: a calibration error cannot be predicted
+        return (("err", expected[0]) if expected else ("ok", {"note": "no error expected"})), ("err", kind)
+    if expected:
+        return ("err", expected[0]), ("ok", {"note": "no error"})
+    model = {"best": [[b[0], b[1], b[2]] for b in bests], "net": None}
+    impl = {"best": obs["best"], "scores": obs["scores"], "descs": obs["descs"], "_trained": obs["trained"]}
+    impl["net"] = _svm_net(c, impl, bests)
+    fell = not all(obs["descs"]) or any(obs["scores"][j] == _vals(c, fl, b[0]) for b in bests for j, fl in enumerate(c["files"]))
+    _tag(c, "out:fallback" if fell else ("out:kept-model" if all(obs["trained"]) else "out:kept-zero-scores"))
+    if not all(obs["trained"]):
+        _tag(c, "out:untrained")
+    if not all(obs["descs"]):
+        _tag(c, "out:desc-false")
+    return ("ok", model), ("ok", impl)
+
+
+def _svm_net(c, o, bests):
+    """the property on the answer of brew with a learner whose scores the model does not predict"""
+    if any(v is None for s in o["scores"] for v in s):
+        return None
+    msg = _net(c, o["scores"], o["descs"], bests, "brew")
+    if msg:
+        return msg
+    # when the answer is a feature, it is the best feature of the first fold with the largest count, with its direction
+    n = len(c["files"])
+    top = max(b[1] for b in bests)
+    first = [b for b in bests if b[1] == top][0]
+    as_feat = [b for b in bests if all(o["scores"][j] == _vals(c, fl, b[0]) for j, fl in enumerate(c["files"]))
+               and list(o["descs"]) == [b[2]] * n]
+    if as_feat and not any((b[0], b[2]) == (first[0], first[2]) for b in as_feat):
+        return f"brew answered with feature {as_feat[0][0]}, not with the best feature {first[0]} (higher is better: {first[2]})"
+    if not all(o["descs"]) and not as_feat:
+        return "brew answered with a lower-is-better direction but the scores are not the best feature's values"
+    return None
+
+
+def _rerun_flags(c, first):
+    if c.get("rerun") == "all":
+        return [True] * len(first)
+    if c.get("rerun") == "none":
+        return [False] * len(first)
+    if c.get("rerun") == "mixed":
+        return list(c["rerun_override"])
+    return list(first)
+
+
+def _conf_container(s, kind):
+    import numpy as np
+    if kind == "i64":
+        return np.array([int(v) for v in s], dtype=np.int64)
+    if kind == "f32":
+        return np.array(s, dtype=np.float32)
+    if kind == "col":
+        return np.array(s, dtype=float).reshape(-1, 1)
+    return np.array(s, dtype=float)
+
+
+def _run_conf(c):
+    """assign_confidence with given scores (per-collection directions) or with scores=None"""
+    import mokapot
+    import mokapot.confidence as conf
+    d = tempfile.mkdtemp(prefix="c07c_", dir=os.environ.get("VERIF_TMP", "/tmp"))
+    old = conf.peps_from_scores
+    conf.peps_from_scores = c03._const_peps
+    try:
+        paths = [_write(f, d, "coll%d" % i, c) for i, f in enumerate(c["files"])]
+        out = Path(d) / "out"
+        out.mkdir()
+        with brewlib.Chunking(**c.get("chunks", {})):
+            dss = mokapot.read_pin(paths, max_workers=1)
+            prefixes = ["coll%d" % i for i in range(len(paths))] if c["prefixes"] else [None] * len(paths)
+            if c["fn"] == "conf_auto":
+                mokapot.assign_confidence(dss, max_workers=c.get("workers", 1), eval_fdr=float(c["eval_fdr"]), dest_dir=out,
+                                          prefixes=prefixes, decoys=c["decoys"], deduplication=c["dedup"], do_rollup=c["rollup"])
+            else:
+                mokapot.assign_confidence(dss, max_workers=c.get("workers", 1),
+                                          scores=[_conf_container(s, c.get("container", "f64")) for s in c["scores"]],
+                                          descs=[bool(x) for x in c["descs"]], eval_fdr=0.5, dest_dir=out, prefixes=prefixes,
+                                          decoys=c["decoys"], deduplication=c["dedup"], do_rollup=c["rollup"])
+        res = {"files": {}, "leftovers": []}
+        for fn in sorted(os.listdir(out)):
+            parts = fn.split(".")
+            if "targets" in parts or "decoys" in parts:
+                res["files"][fn] = c03._parse(out / fn, c)
+            else:
+                res["leftovers"].append(fn)
+        return res
+    finally:
+        conf.peps_from_scores = old
+        shutil.rmtree(d, ignore_errors=True)
+
+
+# ----------------------------------------------------------------------------- model side
+def _err_class(obs):
+    msg = obs.get("message", "") or ""
+    if obs.get("error") == "RuntimeError":
+        if "No PSMs found below" in msg or "No PSMs accepted" in msg:
+            return "RuntimeError:no-feature-accepts"
+        if "calibrate" in msg:
+            return "RuntimeError:calibration"
+    if obs.get("error") == "ValueError" and ("No decoy PSMs were detected" in msg or "No target PSMs were detected" in msg):
+        return "ValueError:one-class"
+    return str(obs.get("error")) + ": " + msg[:120]
+
+
+def _tag(c, t):
+    if t not in c["tags"]:
+        c["tags"].append(t)
+
+
+def _eff_case(c, scores, descs):
+    """the c03 case whose (higher-is-better) scores are the direction-adjusted ones"""
+    eff = [[v if d else -v for v in s] for s, d in zip(scores, descs)]
+    return dict(c, scores=eff, descs=True)
+
+
+def _conf_compare(ce, got):
+    """c03's comparison of result files with Model/Confidence.v, on the direction-adjusted case ce"""
+    model = ("ok", {k: [(i, q) for i, q in v] for k, v in c03._model(ce).items()})
+    if got[0] == "err":
+        return model, got
+    impl_files = got[1]["files"]
+    if ce["ties"]:
+        def merge(dd, ent, sc):
+            out = {}
+            for k, v in dd.items():
+                lvl = k.replace("targets.", "").replace("decoys.", "")
+                out.setdefault(lvl, []).extend((ent(k, x), sc(x)) for x in v)
+            return {k: (sorted(v) if (ce["decoys"] and k.endswith("psms")) else True) for k, v in out.items()}
+        canon_i = merge(impl_files, lambda k, r: c03._entity(ce, k, r["id"]), lambda r: r["score"])
+        canon_m = merge(model[1], lambda k, x: c03._entity(ce, k, x[0]), lambda x: c03._score(ce, x[0]))
+        return ("ok", {"tie-canonical": canon_m}), ("ok", {"tie-canonical": canon_i, "raw": got[1]})
+    canon = {k: [(r["id"], r["q"]) for r in v] for k, v in impl_files.items()}
+    return model, ("ok", {"files": canon, "raw": got[1]})
+
+
+def _view(c):
+    """the files with the feature columns under the positional names c02's score model expects"""
+    files = []
+    for f in c["files"]:
+        data = {"rid": f["data"]["rid"]}
+        for a, name in enumerate(c["feats"][1:]):
+            data["feat%d" % a] = f["data"][name]
+        files.append({"data": data, "targets": f["targets"]})
+    return dict(c, files=files)
+
+
+def _best_features(c, rows_per_fold):
+    """per fold: (index into the candidate list, count, desc) or None, by Model/BrewDecision.v"""
+    thr_train = Fraction(str(c["train_fdr"]))
+    cand = [c["direction"]] if c.get("direction") else c["feats"]
+    lines, per_fold = [], []
+    for rows in rows_per_fold:
+        feats, tg = [[] for _ in c["feats"]], []
+        for j, r in rows:
+            fl = c["files"][j]
+            for a, name in enumerate(c["feats"]):
+                feats[a].append(int(fl["data"][name][r]))
+            tg.append(fl["targets"][r])
+        per_fold.append((feats, tg))
+        use = [feats[c["feats"].index(nm)] for nm in cand]
+        lines.append("c07.best_feature %s %s %s" % (lib.q(thr_train), lib.lst(use, lambda x: lib.lst(x)), lib.lst(tg, lib.b)))
+    bests = []
+    for line in lib.run_driver(lines):
+        t = Toks(line)
+        b = t.opt(lambda: (t.nat(), t.nat(), t.b()))
+        bests.append(None if b is None else (cand[b[0]], b[1], b[2]))
+    return bests, per_fold
+
+
+def _count_true(scores, targets, thr):
+    """accepted targets under higher-is-better scores, by bd_pred_total"""
+    line = "c07.decide %s 0 1 %s %s" % (lib.q(thr), lib.lst(exact_ints(scores)), lib.lst(targets, lib.b))
+    t = Toks(lib.run_driver([line])[0])
+    r = t.result(lambda: (t.nat(), t.opt()))
+    return r[1][0] if r[0] == "ok" else None
+
+
+def _decide(c, mscores, feat_pass, flags):
+    thr = Fraction(c["test_fdr"])
+    files_tok = [lib.lst(exact_ints(mscores[j])) + " " + lib.lst(fl["targets"], lib.b) for j, fl in enumerate(c["files"])]
+    models_tok = ["%s %s" % (lib.z(fp), lib.b(o)) for fp, o in zip(feat_pass, flags)]
+    line = "c07.decide %s %d %s %d %s" % (lib.q(thr), len(models_tok), " ".join(models_tok), len(files_tok), " ".join(files_tok))
+    t = Toks(lib.run_driver([line])[0])
+    return t.result(lambda: (t.nat(), t.opt()))
+
+
+def _vals(c, fl, name):
+    """the values of feature column `name` as written to the file (the row id column is never scaled)"""
+    fs = 1 if name == "rid" else c.get("fscale", 1)
+    return [Fraction(v, fs) for v in fl["data"][name]]
+
+
+def _returned(c, mscores, bests, choice):
+    if choice is None:
+        return [[Fraction(float(v)) for v in s] for s in mscores], [True] * len(c["files"])
+    name, _, d = bests[choice]
+    return [_vals(c, fl, name) for fl in c["files"]], [d] * len(c["files"])
+
+
+def _ensemble_scores(c, obs):
+    k = c["folds"]
+    kind = c.get("est_kind", "col")
+    out = []
+    for fl in c["files"]:
+        n = len(fl["targets"])
+        tot = [Fraction(0)] * n
+        for m in range(k):
+            name = c["feats"][obs["cols"][m]]
+            if kind == "const":
+                continue
+            sgn = -1 if kind == "neg" else 1
+            tot = [t + sgn * v for t, v in zip(tot, _vals(c, fl, name))]
+        out.append([Fraction(float(t / k)) for t in tot])
+    return out
 
 
 def run_case(c):
     if c["fn"] == "conf":
-        return c03.run_case(c)
-    got = call_impl(brewlib.run_brew, c)
+        ce = _eff_case(c, c["scores"], c["descs"])
+        return _conf_compare(ce, call_impl(_run_conf, c))
+    if c["fn"] == "conf_auto":
+        return _run_auto(c)
+    if c["fn"] == "brew_svm":
+        return _svm_case(c)
+    got = call_impl(_run_brew, c)
     if got[0] == "err":
+        _tag(c, "out:read-error")
         return ("unknown", ""), got
     obs = got[1]
     k = c["folds"]
     ms = c02._model_side(c, obs)
     if ms[0] == "err":
+        _tag(c, "out:error")
         return ms, (("err", obs["error"]) if obs.get("error") else ("ok", {}))
     m = ms[1]
-    thr_train = Fraction(str(c["train_fdr"]))
-    # (1) per fold model: best feature on the training rows (all files jointly)
-    lines = []
+    impl_err = ("err", obs["error"] + ": " + obs.get("message", "")) if obs.get("error") else None
+    if impl_err and any(len(fold) == 0 for per_file in m["folds"] for fold in per_file):
+        _tag(c, "out:empty-fold")     # a file with no PSM in some fold: brew stops with an error (C02's degenerate input)
+        return ("err", "EmptyFold"), ("err", "EmptyFold")
+    # (0) the training rows of each fold
+    rows_per_fold, capped = [], False
     for f in range(k):
-        feats, tg = [[] for _ in FEATS], []
-        for j, fl in enumerate(c["files"]):
-            for r in m["complements_per_file"][f][j]:
-                for a, name in enumerate(FEATS):
-                    feats[a].append(int(fl["data"][name][r]))
-                tg.append(fl["targets"][r])
-        lines.append("c07.best_feature %s %s %s" % (lib.q(thr_train), lib.lst(feats, lambda x: lib.lst(x)), lib.lst(tg, lib.b)))
-    bests = []
-    for line in lib.run_driver(lines):
-        t = Toks(line)
-        bests.append(t.opt(lambda: (t.nat(), t.nat(), t.b())))
-    if any(b is None for b in bests):
-        # no feature accepts a PSM on some training set: Model.fit raises RuntimeError, brew re-raises
-        return ("err", "RuntimeError"), (("err", obs["error"]) if obs.get("error") else ("ok", {"note": "no error"}))
+        plan = m["plans"][f]
+        if plan[0] == "err":
+            _tag(c, "out:error")
+            return ("err", plan[1]), (("err", obs["error"]) if obs.get("error") else ("ok", {"note": "brew succeeded"}))
+        comp = [(j, r) for j in range(len(c["files"])) for r in m["complements_per_file"][f][j]]
+        if any(pl is not None for pl in plan[1]):
+            capped = True
+            if obs.get("error"):
+                rows_per_fold.append(None)
+                continue
+            ids = obs["train_ids"][f]
+            mine = [(g // 100000, g % 100000) for g in ids]
+            ok = len(set(ids)) == len(ids) and set(mine) <= set(comp)
+            for j, pl in enumerate(plan[1]):
+                nj = sum(1 for jj, _ in mine if jj == j)
+                ok = ok and (nj == pl if pl is not None else nj == len(m["complements_per_file"][f][j]))
+            if not ok:
+                return ("ok", {"train": "a sub-sample of the fold's complement of the planned size"}), ("ok", {"train": "mismatch in fold %d" % f})
+            rows_per_fold.append(mine)
+        else:
+            rows_per_fold.append(comp)
+    if capped:
+        _tag(c, "out:subsampled")
+    if any(r is None for r in rows_per_fold):
+        # brew raised on a sub-sampled run: the drawn rows were never observed; only explicit errors are acceptable
+        _tag(c, "out:error")
+        kind = _err_class(obs)
+        if kind in ("RuntimeError:no-feature-accepts", "RuntimeError:calibration", "ValueError:one-class"):
+            return ("err", kind), ("err", kind)
+        return ("ok", {"note": "no error expected"}), impl_err
+    # (1) per fold model: best feature on the training rows (all files jointly)
+    bests, per_fold = _best_features(c, rows_per_fold)
+    # explicit errors of the training stage, fold by fold: a one-class training set is refused by LinearPsmDataset (ValueError);
+    # no feature accepts a PSM at train_fdr: Model.fit raises RuntimeError and brew re-raises.  With several workers any of the
+    # failing folds may be the one whose error surfaces
+    expected = []
+    for rows, b in zip(rows_per_fold, bests):
+        tg = [c["files"][j]["targets"][r] for j, r in rows]
+        if not any(tg) or all(tg):
+            expected.append("ValueError:one-class")
+        elif b is None:
+            expected.append("RuntimeError:no-feature-accepts")
+    if expected:
+        _tag(c, "out:error")
+        got_kind = _err_class(obs) if obs.get("error") else None
+        if got_kind in expected and (got_kind == expected[0] or c.get("workers", 1) > 1):
+            return ("err", got_kind), ("err", got_kind)
+        return ("err", expected[0]), (("err", got_kind) if got_kind else ("ok", {"note": "no error"}))
+    model = {"best": [[b[0], b[1], b[2]] for b in bests]}
+    # is_trained, for the estimators whose column does not depend on the fitted rows
+    pred_trained = None
+    if not c.get("learn") or c["est_kind"] == "const":
+        pred_trained = []
+        thr_train = Fraction(str(c["train_fdr"]))
+        for (feats, tg), b in zip(per_fold, bests):
+            col = feats[1]
+            sc = [0] * len(col) if c["est_kind"] == "const" else ([-v for v in col] if c["est_kind"] == "neg" else col)
+            npass = _count_true(sc, tg, thr_train)
+            pred_trained.append(bool(npass and npass > 0 and (c["override"] or npass >= b[1])))
     if obs.get("error"):
-        if obs["error"] == "RuntimeError" and "calibrate" in obs.get("message", ""):
-            # a fold accepted no target at test_fdr (C11's explicit error); brew returned no models, so the
-            # estimator columns (oracle) are unknown and the model cannot evaluate this run
-            return ("err", "RuntimeError"), ("err", "RuntimeError")
-        return ("ok", {"note": "model predicts no error here"}), ("err", obs["error"] + ": " + obs.get("message", ""))
-    model = {}
-    model["best"] = [None if b is None else [FEATS[b[0]], b[1], b[2]] for b in bests]
-    impl = {"best": [[bf, fp, d] if fp is not None else None for bf, fp, d in zip(obs["best_feat"], obs["feat_pass"], obs["model_desc"])]}
-    trained = obs["trained"]            # oracle
+        _tag(c, "out:error")
+        if c.get("direction") and pred_trained is not None and "columns" in obs.get("message", ""):
+            # the fall-back of a model with a user-given direction (finding KEY_DIRECTION); decided below from the model
+            pass
+        elif _err_class(obs) == "RuntimeError:calibration":
+            # a fold accepted no target at test_fdr (C11's explicit error); brew returned no models.  When the estimator's column
+            # does not depend on the fitted rows the model says whether some fold really accepts no target; otherwise the columns
+            # (oracle) are unknown and the model cannot evaluate this run
+            if pred_trained is not None:
+                if not all(pred_trained) or c.get("ensemble"):
+                    return ("ok", {"note": "no calibration happens here: model predicts no error"}), impl_err
+                sm = c02._scores_model(_view(c), dict(obs, cols=[1] * k, seen=None))
+                if not any(s_[0] == "err" and s_[1] == "RuntimeError" for s_ in sm):
+                    return ("ok", {"note": "every fold accepts a target at test_fdr: brew should have returned scores"}), impl_err
+            return ("err", "RuntimeError:calibration"), ("err", "RuntimeError:calibration")
+        else:
+            return ("ok", {"note": "model predicts no error here"}), impl_err
+        # the estimator's column does not depend on the fitted rows (generator: direction implies learn=False), so the
+        # model can say what brew should have returned although brew handed back no models
+        trained = pred_trained
+        obs = dict(obs, cols=[1] * k)
+    else:
+        trained = obs["trained"]            # oracle unless predicted
+        if pred_trained is not None:
+            model["trained"] = pred_trained
+    impl = {"best": [[bf, fp, d] if fp is not None else None for bf, fp, d in zip(obs.get("best_feat", []), obs.get("feat_pass", []), obs.get("model_desc", []))]}
+    if pred_trained is not None and not obs.get("error"):
+        impl["trained"] = obs["trained"]
     # (2) model scores
+    vc = _view(c)
     if all(trained):
-        sm = c02._scores_model(dict(c), obs)
-        if any(s[0] == "err" for s in sm):
-            kind = [s[1] for s in sm if s[0] == "err"][0]
-            if kind == "TypeError":
-                # the calibration of some fold is not finite in the model (no decoy in the fold, or lowest accepted target =
-                # decoy median): the code then carries nan / inf scores into the comparison with the best feature — outside
-                # the model (and outside C11's quantifier); such runs are not compared
-                return ("err", "NonFiniteCalibration"), ("err", "NonFiniteCalibration")
-            return ("err", kind), ("ok", impl)
-        mscores = [s[1] for s in sm]
+        if c.get("ensemble"):
+            mscores = _ensemble_scores(c, obs)
+        else:
+            sm = c02._scores_model(vc, obs)
+            if any(s[0] == "err" for s in sm):
+                kind = [s[1] for s in sm if s[0] == "err"][0]
+                if kind == "TypeError":
+                    # the calibration of some fold is not finite in the model (no decoy in the fold, or lowest accepted target =
+                    # decoy median): the code then carries nan / inf scores into the comparison with the best feature — outside
+                    # the model (and outside C11's quantifier); such runs are not compared
+                    _tag(c, "out:nonfinite-calibration")
+                    return ("err", "NonFiniteCalibration"), ("err", "NonFiniteCalibration")
+                return ("err", kind), ("ok", impl)
+            mscores = [s[1] for s in sm]
+            if c.get("est_mode") == "proba" and c.get("fscale", 1) != 1:
+                mscores = [[v / c["fscale"] for v in s] for s in mscores]       # raw (uncalibrated) scores: the unit matters
     else:
         mscores = [[Fraction(0)] * len(fl["targets"]) for fl in c["files"]]
     # (3) the decision
-    thr = Fraction(c["test_fdr"])
-    files_tok = []
-    for j, fl in enumerate(c["files"]):
-        files_tok.append(lib.lst(exact_ints(mscores[j])) + " " + lib.lst(fl["targets"], lib.b))
-    models_tok = ["%s %s" % (lib.z(b[1] if b else 0), lib.b(c["override"])) for b in bests]
-    line = "c07.decide %s %d %s %d %s" % (lib.q(thr), len(models_tok), " ".join(models_tok), len(files_tok), " ".join(files_tok))
-    t = Toks(lib.run_driver([line])[0])
-    dec = t.result(lambda: (t.nat(), t.opt()))
+    dec = _decide(c, mscores, [b[1] for b in bests], [c["override"]] * k)
     if dec[0] == "err":
         return dec, ("ok", impl)
     pred_total, choice = dec[1]
     model["pred_total"] = pred_total
-    if choice is None:
-        model["scores"] = [[Fraction(float(v)) for v in s] for s in mscores]
-        model["descs"] = [True] * len(c["files"])
-    else:
-        name, _, d = model["best"][choice]
-        model["scores"] = [[Fraction(fl["data"][name][r]) for r in range(len(fl["targets"]))] for fl in c["files"]]
-        model["descs"] = [d] * len(c["files"])
+    model["scores"], model["descs"] = _returned(c, mscores, bests, choice)
     model["fallback"] = choice is not None
+    if obs.get("error"):
+        # only reached for the direction finding: the model says what brew should have returned
+        model["note"] = "brew should fall back to the feature named by direction" if choice is not None else "brew should keep the (zero) scores"
+        return ("ok", model), impl_err
     impl["scores"] = obs["scores"]
     impl["descs"] = obs["descs"]
     impl["_trained"] = trained
+    impl["_shapes"] = obs["shapes"]
+    model["n_returned"] = [len(c["files"])] * 3
+    impl["n_returned"] = obs["n_returned"]
+    _tag(c, "out:fallback" if choice is not None else ("out:kept-zero-scores" if not all(trained) else "out:kept-model"))
+    if not all(trained):
+        _tag(c, "out:untrained")
+    if not all(model["descs"]):
+        _tag(c, "out:desc-false")
+    # (a) brew again with the list of trained models
+    if c.get("rerun") and all(trained):
+        flags = _rerun_flags(c, [c["override"]] * k)
+        dec2 = _decide(c, mscores, [b[1] for b in bests], flags)
+        if dec2[0] == "ok":
+            s2, d2 = _returned(c, mscores, bests, dec2[1][1])
+            model["rerun"] = {"scores": s2, "descs": d2, "n_models": k}
+            model["_rerun_fallback"] = dec2[1][1] is not None
+            _tag(c, "out:rerun-" + ("fallback" if dec2[1][1] is not None else "kept") + ("-mixed-flags" if len(set(flags)) > 1 else ""))
+        else:
+            model["rerun"] = {"error": dec2[1]}
+        impl["rerun"] = obs["rerun"]
+    # (b) end to end: assign_confidence on what brew returned
+    if c.get("confidence"):
+        finite = all(v is not None for s in obs["scores"] for v in s)
+        distinct = all(len(set(s)) == len(s) for s in model["scores"])
+        if finite and distinct:
+            cf = c["confidence"]
+            ce = _eff_case({"files": c["files"], "dedup": cf["dedup"], "rollup": cf["rollup"], "decoys": True, "prefixes": cf["prefixes"],
+                            "chunks": {"confidence": cf["chunk"]} if cf.get("chunk") else {}, "levels": [], "ties": False},
+                           [[float(v) for v in s] for s in model["scores"]], model["descs"])
+            if "error" in (obs["conf"] or {}):
+                model["conf"], impl["conf"] = "result files", obs["conf"]["error"]
+            else:
+                mm, ii = _conf_compare(ce, ("ok", obs["conf"]))
+                model["conf"] = lib.jsonable({kk: [(x, y) for x, y in v] for kk, v in mm[1].items()})
+                impl["conf"] = lib.jsonable({kk: [(x, y) for x, y in v] for kk, v in ii[1]["files"].items()})
+                if obs["conf"]["leftovers"]:
+                    impl["conf"]["leftovers"] = obs["conf"]["leftovers"]
+                impl["_conf_raw"] = obs["conf"]
+            _tag(c, "out:conf-e2e" + ("-desc-false" if not all(model["descs"]) else ""))
     return ("ok", model), ("ok", impl)
 
 
-def same(c, m, i):
+def _run_auto(c):
+    """assign_confidence(scores=None): per collection the best feature (BrewDecision.v) ranked in its direction"""
+    thr = Fraction(c["eval_fdr"])
+    lines = []
+    for fl in c["files"]:
+        feats = [[int(v) for v in fl["data"][name]] for name in c["feats"]]
+        lines.append("c07.best_feature %s %s %s" % (lib.q(thr), lib.lst(feats, lambda x: lib.lst(x)), lib.lst(fl["targets"], lib.b)))
+    bests = []
+    for line in lib.run_driver(lines):
+        t = Toks(line)
+        bests.append(t.opt(lambda: (t.nat(), t.nat(), t.b())))
+    got = call_impl(_run_conf, c)
+    if any(b is None for b in bests):
+        return ("err", "RuntimeError"), got if got[0] == "err" else ("ok", {"note": "no error"})
+    c["_auto"] = [[c["feats"][b[0]], b[2]] for b in bests]
+    _tag(c, "auto-low" if not all(b[2] for b in bests) else "auto-high")
+    scores = [[float(v) for v in fl["data"][c["feats"][b[0]]]] for fl, b in zip(c["files"], bests)]
+    ce = _eff_case(c, scores, [b[2] for b in bests])
+    return _conf_compare(ce, got)
+
+
+def _ceff(c):
     if c["fn"] == "conf":
-        return c03.same(c, m, i)
+        return _eff_case(c, c["scores"], c["descs"])
+    auto = c.get("_auto")
+    if not auto:
+        return None
+    return _eff_case(c, [[float(v) for v in fl["data"][a[0]]] for fl, a in zip(c["files"], auto)], [a[1] for a in auto])
+
+
+BREW_KEYS = ("best", "trained", "scores", "descs", "n_returned", "rerun", "conf")
+
+
+def same(c, m, i):
+    if c["fn"] in ("conf", "conf_auto"):
+        if m[0] == "err" or i[0] == "err":
+            return m[0] == i[0] and m[1] == i[1]
+        return c03.same(_ceff(c) or c, m, i)
     if m[0] != i[0]:
         return False
     if m[0] == "err":
         return m[1] == i[1]
     if m[0] != "ok" or "best" not in m[1] or "best" not in i[1]:
         return False
-    return all(m[1][k] == i[1][k] for k in ("best", "scores", "descs"))
+    if c["fn"] == "brew_svm":
+        return m[1]["best"] == i[1]["best"] and i[1].get("net") is None
+    return all(lib.jsonable(m[1].get(k)) == lib.jsonable(i[1].get(k)) for k in BREW_KEYS)
 
 
 def nontrivial(c):
-    return c["fn"] == "conf" or c["est_kind"] != "col" or "low" in c["tags"]
+    tags = c.get("tags", [])
+    if c["fn"] == "conf":
+        return not all(c["descs"]) and c03.nontrivial(c)
+    if c["fn"] == "conf_auto":
+        return "auto-low" in tags and c03.nontrivial(c)
+    return any(t in tags for t in ("out:fallback", "out:untrained", "out:desc-false", "out:rerun-fallback", "out:rerun-fallback-mixed-flags"))
 
 
+# ----------------------------------------------------------------------------- the property itself
 def _accepted(scores, targets, thr, desc=True):
     from .c01 import q_spec
     qs = q_spec(exact_ints(scores), targets, desc)
     return sum(1 for q, t in zip(qs, targets) if t and q <= thr)
 
 
-def oracle(c, i):
-    if c["fn"] == "conf":
-        return c03.oracle(c, i)
-    if i[0] != "ok":
-        if str(i[1]).startswith("RuntimeError"):
-            return None       # explicit error: no feature / no target accepted at the FDR
-        return f"brew failed: {i[1]}"
-    o = i[1]
-    if "scores" not in o or any(v is None for s in o["scores"] for v in s):
-        return None
-    if c["override"]:
-        return None
+def _net(c, scores, descs, best, what):
+    """first sentence of the property on one (scores, descs) answer of brew"""
     thr = Fraction(c["test_fdr"])
-    best = [b for b in o["best"] if b is not None]
-    if not best:
-        return None
     max_pass = max(b[1] for b in best)
-    # accepted genuine targets under the returned scores / direction
-    acc = sum(_accepted(o["scores"][j], fl["targets"], thr, o["descs"][j]) for j, fl in enumerate(c["files"]))
-    is_feature = any(all(o["scores"][j] == [Fraction(fl["data"][b[0]][r]) for r in range(len(fl["targets"]))]
-                         for j, fl in enumerate(c["files"])) and o["descs"] == [b[2]] * len(c["files"]) for b in best)
+    if len(scores) != len(c["files"]) or len(descs) != len(c["files"]):
+        return f"{what}: {len(scores)} score vectors / {len(descs)} directions for {len(c['files'])} collections"
+    acc = sum(_accepted(scores[j], fl["targets"], thr, descs[j]) for j, fl in enumerate(c["files"]))
+    is_feature = any(isinstance(b[0], str) and b[0] in c["files"][0]["data"]
+                     and all(scores[j] == _vals(c, fl, b[0]) for j, fl in enumerate(c["files"])) and list(descs) == [b[2]] * len(c["files"]) for b in best)
     if acc < max_pass and not is_feature:
-        return (f"returned scores accept {acc} genuine targets at {c['test_fdr']}, the best feature accepted {max_pass} "
+        return (f"{what}: returned scores accept {acc} genuine targets at {c['test_fdr']}, the best feature accepted {max_pass} "
                 f"during training, and the scores are not that feature with its direction")
     return None
 
 
+def oracle(c, i):
+    if c["fn"] in ("conf", "conf_auto"):
+        ce = _ceff(c)
+        if ce is None:
+            return None
+        if c["fn"] == "conf_auto" and i[0] == "ok":
+            # the ranking clause, stated directly: the PSM files list the chosen feature best first, in ITS direction
+            for fn, rows in i[1]["raw"]["files"].items():
+                if not fn.endswith("targets.psms"):
+                    continue
+                for j, (name, d) in enumerate(c["_auto"]):
+                    vals = [c["files"][j]["data"][name][c03._locate(r["id"])[1]] for r in rows if c03._locate(r["id"])[0] == j]
+                    if any((a < b) if d else (a > b) for a, b in zip(vals, vals[1:])):
+                        return (f"assign_confidence(scores=None): the best feature of collection {j} is {name}, "
+                                f"{'higher' if d else 'lower'} is better (it accepts the most targets at {c['eval_fdr']} that way), "
+                                f"but {fn} does not list {'high' if d else 'low'} values first")
+        return c03.oracle(ce, i)
+    if i[0] != "ok":
+        if str(i[1]).startswith("RuntimeError") or i[1] in ("EmptyFold", "NonFiniteCalibration") or str(i[1]).startswith("ValueError"):
+            return None       # explicit error: no feature / no target accepted at the FDR, one-class training set
+        return f"brew failed instead of handing back the model scores or the best feature: {i[1]}"
+    o = i[1]
+    if c["fn"] == "brew_svm":
+        return o.get("net")
+    if "scores" not in o or any(v is None for s in o["scores"] for v in s):
+        return None
+    best = [b for b in o["best"] if b is not None]
+    if not best:
+        return None
+    if not c["override"]:
+        msg = _net(c, o["scores"], o["descs"], best, "brew")
+        if msg:
+            return msg
+    r = o.get("rerun")
+    if r and not all(_rerun_flags(c, [c["override"]] * c["folds"])):
+        if "error" in r:
+            return f"brew with the list of trained fold models failed: {r['error']}"
+        if not any(v is None for s in r["scores"] for v in s):
+            msg = _net(c, r["scores"], r["descs"], best, "brew with the list of trained fold models")
+            if msg:
+                return msg
+    if isinstance(o.get("conf"), str):
+        return f"assign_confidence failed on what brew returned: {o['conf']}"
+    if o.get("_conf_raw") and c.get("confidence"):
+        cf = c["confidence"]
+        ce = _eff_case({"files": c["files"], "dedup": cf["dedup"], "rollup": cf["rollup"], "decoys": True, "prefixes": cf["prefixes"],
+                        "chunks": {}, "levels": [], "ties": False, "fn": "conf"},
+                       [[float(v) for v in s] for s in o["scores"]], o["descs"])
+        msg = c03.oracle(ce, ("ok", {"raw": o["_conf_raw"]}))
+        if msg:
+            return "assign_confidence on what brew returned: " + msg
+    return None
+
+
 def finding_key(c, m, i):
+    if c["fn"] == "conf_auto":
+        # class: assign_confidence(scores=None) on a collection whose best feature is lower-is-better
+        auto = c.get("_auto")
+        if auto and not all(a[1] for a in auto):
+            return KEY_AUTO
+        return None
+    if c["fn"] == "brew" and c.get("direction"):
+        # class: Model(direction=<feature>): best_feat holds the VALUES of the feature, so the fall-back cannot read the column.
+        # Only the disagreements this explains are classified: (1) best_feat is an ndarray while count and direction agree,
+        # (2) the model predicts the fall-back and brew raised on read_data(columns=[<ndarray>])
+        if i is None:
+            return None
+        if m is None:
+            return KEY_DIRECTION if i[0] == "err" and "columns" in str(i[1]) else None
+        if i[0] == "err":
+            if m[0] == "ok" and m[1].get("fallback") and "columns" in str(i[1]):
+                return KEY_DIRECTION
+            return None
+        if m[0] != "ok" or i[0] != "ok" or "best" not in m[1] or "best" not in i[1]:
+            return None
+        mb, ib = m[1]["best"], i[1]["best"]
+        if len(mb) != len(ib) or any(b is None for b in ib):
+            return None
+        if any(a[1:] != b[1:] or b[0] != "<ndarray>" for a, b in zip(mb, ib)):
+            return None
+        if m[1].get("fallback"):
+            return None           # a fall-back that did not raise is not this finding
+        rerun_explained = (m[1].get("_rerun_fallback") and "columns" in str((i[1].get("rerun") or {}).get("error", "")))
+        if all(lib.jsonable(m[1].get(k)) == lib.jsonable(i[1].get(k)) for k in BREW_KEYS if k not in ("best", "rerun")) and \
+                (rerun_explained or lib.jsonable(m[1].get("rerun")) == lib.jsonable(i[1].get("rerun"))):
+            return KEY_DIRECTION
     return None
